@@ -22,6 +22,8 @@ def run(ctx, sess):
     relay(ctx, sess, _src_c03.run, {'C03.j': 'C19.5'})
     ctx.rule('C19.7', 'one open repairs the file completely: the repair sequence of jls_rd_open - truncate, rewrite the last chunk, pointer repair, rebuild, END, close, reopen - runs unconditionally and in order on the not-closed branch (shared with C03.b), so the second open finds a closed file and changes nothing')
     relay(ctx, sess, _src_c03.run, {'C03.b': 'C19.7'}, minimum=10)
+    ctx.rule('C19.9', 'a closed file is recognised as closed: the backward scan for the last chunk examines every 8-byte aligned offset (shared with C03.k), so the END chunk is found wherever it lies and the repair branch - which writes - is not taken for a good file')
+    relay(ctx, sess, _src_c03.run, {'C03.k': 'C19.9'}, minimum=1)
     ctx.rule('C19.8', 'what repair rewrites in place is what both opens read: a chunk header that repair rewrites (jls_core_update_chunk_header) is a copy of the chunk just read from the file; a copy of state the reader cached before the repair (a list head, a definition) is rewritten only if that cached state is updated as well')
     rewrite_source_rule(ctx, sess.prog('default'))
     ownership_rule(ctx, sess.prog('default'))
